@@ -23,7 +23,10 @@ def variants_of(c):
     if 'variants' not in c:
         return [(None, c)]
     out = []
+    import os
     for name, v in c['variants'].items():
+        if os.environ.get('PYVC_VARIANT') and os.environ['PYVC_VARIANT'] != name:
+            continue
         cv = {k: x for k, x in c.items() if k != 'variants'}
         for k, x in v.items():
             if k in ('requires', 'ensures') and k in cv:
